@@ -12,8 +12,7 @@ theorem call_stack (below locs ops : Array Value) (ms : List Value) (n : Nat) :
       (below ++ locs ++ ops) ++ (ms.toArray ++ Array.replicate n Value.null) ++ #[] := by
   apply Array.ext'; simp
 
-/-- `Call argc` with the callee on top of the arguments -/
-theorem step_call {argc fip nlc : Nat} {ms : List Value} (h : CodeAt C i (.call argc :: rest)) (hlen : ms.length = argc) :
+theorem step_call_raw {argc fip nlc : Nat} {ms : List Value} (h : CodeAt C i (.call argc :: rest)) (hlen : ms.length = argc) :
     (argc > nlc → ∃ s2, step C (mkS s0 i below locs ((ops ++ ms.toArray).push (.fn fip nlc)) g l fr) = .error .argument s2) ∧
     (argc ≤ nlc → (∃ s2, step C (mkS s0 i below locs ((ops ++ ms.toArray).push (.fn fip nlc)) g l fr) = .error .index s2) ∨
       step C (mkS s0 i below locs ((ops ++ ms.toArray).push (.fn fip nlc)) g l fr) =
@@ -34,6 +33,21 @@ theorem step_call {argc fip nlc : Nat} {ms : List Value} (h : CodeAt C i (.call 
       simp only [mkS, call_stack]
       congr 2
       simp [← hlen]; omega
+
+/-- `Call argc` with the callee on top of the arguments: wrong number of arguments, the stack/frame limit
+    (`AtLimit`), or the callee's activation -/
+theorem step_call {argc fip nlc : Nat} {ms : List Value} (h : CodeAt C i (.call argc :: rest)) (hlen : ms.length = argc) :
+    (argc > nlc → ∃ s2, step C (mkS s0 i below locs ((ops ++ ms.toArray).push (.fn fip nlc)) g l fr) = .error .argument s2) ∧
+    (argc ≤ nlc → AtLimit C (mkS s0 i below locs ((ops ++ ms.toArray).push (.fn fip nlc)) g l fr) ∨
+      step C (mkS s0 i below locs ((ops ++ ms.toArray).push (.fn fip nlc)) g l fr) =
+        .next (mkS s0 fip (below ++ locs ++ ops) (ms.toArray ++ Array.replicate (nlc - argc) .null) #[] g l
+          ({ ip := i + 2, bp := below.size } :: fr))) := by
+  obtain ⟨h1, h2⟩ := step_call_raw (s0 := s0) (below := below) (locs := locs) (ops := ops) (g := g) (l := l) (fr := fr)
+    (fip := fip) (nlc := nlc) (ms := ms) h hlen
+  refine ⟨h1, fun hle => ?_⟩
+  rcases h2 hle with ⟨s2, hs2⟩ | hn
+  · exact .inl (AtLimit.of_call_error (by rw [mkS_ip]; exact h.head) (by rw [mkS_stack]; exact pop_frame _ _ _ _) hle hs2)
+  · exact .inr hn
 
 theorem step_retv {v : Value} {fr0 : Frame} (hmem : s0.mem.managed = []) (h : CodeAt C i (.retv :: rest)) :
     step C (mkS s0 i below locs (ops.push v) g l (fr0 :: fr)) =
